@@ -26,6 +26,9 @@ CLAIMED = {
  "C08": ("E2 product (complete)",
          "all operator sequences e0 o1 e1 .. on en with n <= 3 (thorough 4) over the 15 binary operators and `..`, every assignment of 14 operand forms (name, literal, negative literal, call, index, range index, property, type property, postfix forms on a negative literal, ...) for n <= 2 in three spacing styles, one varied operand for larger n; all expression trees with <= 4 (thorough 5) operator nodes over one operator per tier (all 16 at the topmost levels) printed with only the necessary parentheses, and every subset of redundant parenthesis placements (capped at ~45 per tree); all operator pairs evaluated on 6 operand triples; oracle = the real parser's tree (hook ast, parsed generically from its Debug dump) must equal the reference precedence-climbing parser's tree / the printed tree itself; accept/reject must agree; evaluation results equal the reference interpreter",
          "exhaustive enumeration of operator sequences and expression trees on the real parser against a reference parser and the print/parse round trip"),
+ "C09": ("E3 deviation-bounded exploration",
+         "corpus of ~440 programs (the repository's 336 test scripts + generated programs covering every token adjacency) x every single layout edit at every token boundary (k = 1: space / tab / CR, comments with multi-byte text, blank lines, newline <-> `;`, doubled terminators, line break / CR LF + indentation after each continuation token, line break vs `;` after every other token, `_` after every digit, every ASCII string character as \\xhh / \\xHH, leading layout); thorough: k = 2 on programs of <= 12 tokens; plus a line break after each of the 25 continuation and 13 non-continuation tokens; oracle = the real lexer's token sequence (hook tokens) unchanged / equal to the `;` variant, same output, same message with every position (also positions quoted inside the message and stack-trace lines) moved exactly as the text moved",
+         "exhaustive single/double-edit deviation exploration of a corpus on the real lexer and interpreter against invariance laws"),
  "C10": ("E2 product (complete over the pool)",
          "all ordered pairs over an exhaustive pool of ~290 (quick) / ~500 (thorough) nested values (atoms, a function, every list of length <= 2 and object over keys a, b, one and two levels deep) x 3 construction patterns (operands built separately; every equal container sub-term built once and referenced everywhere, across and inside the operands; object keys in reverse order) x 4 programs (==, reversed ==, != first, the === matrix), plus all pairs of lists over {0,1} of length <= 5 and of objects over every subset of four keys; oracle = tolerant structural-equality reference computed without short-cuts (a boolean where no differently-typed positions exist; a diagnostic naming an occurring kind pair, or `false` only when a plain difference exists, otherwise) and laws on the subject's own answers: operand order, negation, transitivity over the whole table, sharing- and order-independence, === reflexive / symmetric / implies ==, operands print unchanged",
          "exhaustive enumeration of all value pairs up to a size bound on the real interpreter against a reference relation and algebraic laws"),
